@@ -73,6 +73,62 @@ class MultiPeriodStreamData(TypedDict):
     periods: list[PeriodJsonData]
 
 
+def payload_error(data, with_periods: bool = True) -> str | None:
+    """
+    Checks that a JSON payload has the shape of MultiPeriodStreamData.
+    Returns a description of the first problem found
+    """
+    if not isinstance(data, dict):
+        return 'the JSON payload must be an object'
+    for name in ['name', 'title']:
+        if not isinstance(data.get(name), (str, type(None))):
+            return f'{name} must be a string'
+    if isinstance(data.get('pk'), bool) or not isinstance(data.get('pk'), (int, str, type(None))):
+        return 'pk must be a number'
+    if not isinstance(data.get('options'), (dict, type(None))):
+        return 'options must be an object'
+    if not with_periods:
+        return None
+    if not isinstance(data.get('periods'), list):
+        return 'periods must be a list'
+    for period in data['periods']:
+        if not isinstance(period, dict):
+            return 'a period must be an object'
+        for name in ['pid', 'start', 'duration']:
+            if not isinstance(period.get(name), str):
+                return f'period {name} must be a string'
+        for name in ['ordering', 'stream']:
+            if isinstance(period.get(name), bool) or not isinstance(period.get(name), int):
+                return f'period {name} must be a number'
+        if isinstance(period.get('pk'), bool) or not isinstance(period.get('pk'), (int, type(None))):
+            return 'period pk must be a number'
+        for name in ['start', 'duration']:
+            if period[name] in {"", "PT0S"}:
+                continue
+            try:
+                value = from_isodatetime(period[name])
+            except (ValueError, OverflowError):
+                value = None
+            if not isinstance(value, datetime.timedelta):
+                return f'period {name} must be an ISO 8601 duration'
+        if not isinstance(period.get('tracks'), list):
+            return 'period tracks must be a list'
+        for trk in period['tracks']:
+            if not isinstance(trk, dict):
+                return 'a track must be an object'
+            if isinstance(trk.get('track_id'), bool) or not isinstance(trk.get('track_id'), int):
+                return 'track_id must be a number'
+            try:
+                ContentRole.from_string(trk.get('role'))
+            except (AttributeError, KeyError):
+                return 'unknown track role'
+            if not isinstance(trk.get('lang'), (str, type(None))):
+                return 'track lang must be a string'
+            if not isinstance(trk.get('encrypted', False), bool):
+                return 'track encrypted must be a boolean'
+    return None
+
+
 def process_period(mp_stream: models.MultiPeriodStream,
                    data: PeriodJsonData) -> str | None:
     """
@@ -84,7 +140,7 @@ def process_period(mp_stream: models.MultiPeriodStream,
     defaults = OptionsRepository.get_default_options()
     options = OptionsRepository.convert_cgi_options(
         {"mode": "vod"}, defaults=defaults)
-    if data['pk'] is not None:
+    if data.get('pk') is not None:
         period = models.Period.get(pk=data['pk'])
     elif mp_stream.pk:
         period = models.Period.get(pid=data['pid'], parent=mp_stream)
@@ -225,6 +281,8 @@ class AddStream(HTMLHandlerBase):
             MultiPeriodStreamData, flask.request.get_json())
         if not data:
             return jsonify_no_content(400)
+        if payload_error(data) is not None:
+            return flask.make_response(payload_error(data), 400)
         csrf_key = self.generate_csrf_cookie()
         csrf_token = self.generate_csrf_token('streams', csrf_key)
         errors: list[str] = []
@@ -272,6 +330,9 @@ class ValidateStream(RequestHandlerBase):
     ]
 
     def post(self) -> flask.Response:
+        if payload_error(flask.request.json, with_periods=False) is not None:
+            return flask.make_response(
+                payload_error(flask.request.json, with_periods=False), 400)
         errors = models.MultiPeriodStream.validate_values(**flask.request.json)
         return jsonify({
             'errors': errors,
@@ -316,8 +377,10 @@ class EditStream(HTMLHandlerBase):
     def post(self, mps_name: str) -> flask.Response:
         data = flask.request.json
         if not data:
-            logging.waring('JSON payload missing')
+            logging.warning('JSON payload missing')
             return jsonify_no_content(400)
+        if payload_error(data) is not None:
+            return flask.make_response(payload_error(data), 400)
         csrf_key = self.generate_csrf_cookie()
         csrf_token = self.generate_csrf_token('streams', csrf_key)
         errors = models.MultiPeriodStream.validate_values(**data)
@@ -346,7 +409,7 @@ class EditStream(HTMLHandlerBase):
             for period in data['periods']:
                 err: str | None = process_period(current_mps, period)
                 if err is not None:
-                    errors.push(err)
+                    errors.append(err)
             if not errors:
                 models.db.session.flush()
                 models.db.session.commit()
